@@ -125,7 +125,7 @@ def run_shard(shard, rec):
 
 def finish(m, tier):
     inc = probes.missing(m, ANCHORS)
-    for k in ("events_checked", "distance_1", "distance_0", "source_kind_runs", "lazy_hex_events", "lazy_swtpm_events", "lazy_files_events", "bufferedreader_runs"):
+    for k in ("events_checked", "distance_1", "distance_0", "source_kind_runs", "lazy_hex_events", "lazy_swtpm_events", "lazy_files_events", "bufferedreader_runs", "multi_file_runs_with_empty_inner_file"):
         if not m["counters"].get(k):
             inc.append(f"no {k}")
     return dict(inconclusive=inc)
